@@ -43,7 +43,7 @@ static std::string h_mdvgm(const std::string& arg)
 	bool has_date = false, has_comment = false;
 	for(const std::string& t : rest)
 	{
-		if(t.size() > 1 && t[0] == 'W') continue;
+		if(t.size() > 1 && (t[0] == 'W' || t[0] == 'X')) continue;
 		if(t.size() > 1 && t[0] == '#')
 		{
 			size_t eq = t.find('=');
@@ -104,3 +104,6 @@ static std::string h_mdvgm(const std::string& arg)
 	return buf + hex_of(b);
 }
 HANDLER("mdvgm", h_mdvgm);
+// same request, judged for C08
+static std::string h_c08song(const std::string& arg) { return h_mdvgm(arg); }
+HANDLER("c08song", h_c08song);
